@@ -14,6 +14,7 @@
     by one (real loader, real solver MIR), all documents incl. arrays.
 """
 import itertools
+import json
 import z3
 from common import *
 from treelib import *
@@ -56,6 +57,7 @@ def main():
             units.append(('aho', lens, ins, 'end', 'utf8'))
     units.append(('aho-contract',))
     units.append(('syntax', 5 if quick else 7))
+    units.append(('fold-utf8', 3 if quick else 4))
     for l in ([['a', 'b'], ['a*', '*b', '*c*'], ['a', 'ia', '?a'], ['ia*', 'i*b'], ['*a*', '', 'b'], ['ab', '*b', 'a*'], ['?a', '?b', 'c'], ['i?a', 'i?b'], ['i?ab', 'i?b', 'ic'], ['ia', 'ib', 'c'],
                # one text under several relations / case flags
                ['a*', '*a'], ['ab*', '*ab*', 'ab'], ['ia*', 'i*a', 'a']] +
@@ -189,6 +191,9 @@ def run_unit(ck, unit):
     if kind == 'syntax':
         syntax_unit(ck, prog, unit[1])
         return
+    if kind == 'fold-utf8':
+        fold_utf8_unit(ck, prog, unit[1])
+        return
     if kind == 'batch':
         batch_unit(ck, unit[1])
         return
@@ -258,6 +263,69 @@ def aho_replay(ck, label, model, needles, kd, h, ins, what):
         return ('spurious', 'native evaluation of the member list agrees with the relations (%s)' % path)
     return ('violation', path, '%s %s: members %r on %r: expected %s, native %s' % (
         label, what, members, hb, exp, {k: v['verdict'] for k, v in native.items()}))
+
+
+def fold_utf8_unit(ck, prog, N):
+    """`i<text>` with a symbolic well-formed UTF-8 text (multi-byte characters, no pattern markers): the needle the real
+    into_identifier MIR stores must be the text up to *ASCII* case - the engines fold ASCII only, so a needle that was
+    changed beyond that can no longer match its own text"""
+    uni = engine.Universe()
+    ex = ck.new_engine(prog, uni=uni, summarise=())
+    models_chars.install(ex)
+    body = models_chars.fresh_utf8('body', N, uni, max_width=2, min_len=1)
+    for b in body.bytes:
+        uni.axioms.append(z3.And(*[b != ord(ch) for ch in '*?><="\'']))
+    s = S.SStr([z3.BitVecVal(ord('i'), 8)] + list(body.bytes), body.length + 1, 'ibody')
+    fn = [f for f in prog.fns if f.kind == 'fn' and f.name.endswith('::into_identifier')][0]
+    results = ex.explore(fn, [StrV(s)])
+    br = ck.bridge()
+    bad = []
+    for r in results:
+        ck.blocks |= r.blocks
+        if r.kind == 'panic':
+            continue            # C04's business
+        if r.value.vname != 'Ok':
+            bad.append(r.cond())
+            continue
+        ident = r.value.items[0]
+        flag, pat = ident.items[0], ident.items[1]
+        okv = False
+        if pat.vname == 'Exact' and isinstance(pat.items[0], StrV):
+            okv = b_and(z3bool(flag), z3bool(S.s_eq(pat.items[0].s, body, fold=True)))
+        bad.append(b_and(r.cond(), z3.Not(z3bool(okv)) if okv is not False else True))
+
+    def on_sat(model):
+        # the model's text, then the same text with each non-ASCII character replaced by characters whose Unicode lower-casing differs
+        # (the executor's lower-casing is arbitrary above ASCII, so the native run decides)
+        import C04
+        first = S.model_bytes(model, body)
+        cands = [first]
+        try:
+            txt = first.decode('utf-8')
+            for i, chh in enumerate(txt):
+                if ord(chh) >= 0x80:
+                    for sc in ('\u00c9', '\u00c4', '\u03a9', '\u0416', '\u00e9'):
+                        cands.append((txt[:i] + sc + txt[i + 1:]).encode('utf-8'))
+        except UnicodeDecodeError:
+            pass
+        for cand in cands:
+            text = b'i' + cand
+            n = br.call(cmd='ident', s=list(text))
+            if not n.get('ok') or 'panic' in n:
+                continue
+            got = bytes(n['pattern'].get('v') or [])
+            fold = lambda bs: bytes(c + 32 if 0x41 <= c <= 0x5a else c for c in bs)
+            yaml = 'detection:\n  A:\n    f: %s\n  condition: A\ntrue_positives: []\ntrue_negatives: []\n' % json.dumps(text.decode('utf-8'), ensure_ascii=False)
+            docj = {'$obj': [[list(b'f'), {'$str': list(cand)}]]}
+            ev = br.call(cmd='eval', yaml=yaml, opts=None, doc=docj, mode='flat')
+            path = ck.write_replay('fold_utf8_' + cand.hex(), {'input': text.decode('utf-8'), 'native_identifier': n, 'rule': yaml, 'doc': docj, 'native_eval': ev,
+                                                                'request': {'cmd': 'eval', 'yaml': yaml, 'opts': None, 'doc': docj, 'mode': 'flat'}})
+            ck.replays_ok += 1
+            if n['pattern'].get('t') != 'Exact' or fold(got) != fold(cand) or ev.get('verdict') is not True:
+                return ('violation', path, 'the case-insensitive pattern %r does not match its own text: needle %r, verdict %r' % (text.decode('utf-8'), got, ev.get('verdict', ev)))
+        return ('spurious', 'natively the needle is the text up to ASCII case and the pattern matches its own text, on the model and its neighbours')
+    ck.obligation('i<utf-8 text>: the needle is the text up to ASCII case', uni, b_or(*bad) if bad else False,
+                  sample={'form': 'into_identifier on i + UTF-8 text', 'bytes<=': N, 'paths': len(results)}, on_sat=on_sat)
 
 
 def syntax_unit(ck, prog, N):
